@@ -909,9 +909,20 @@ func c05Program(c *Ctx, idx int, name string, p c05Prog, frag int) error {
 		npr = 2 // not evaluated by the model (quadratic in the number of ids)
 	}
 	obs := L(I(0), ex.listing, L(ps.circs...), Ints(ps.retIDs), bigsSX(s.gRes), Big(new(big.Int).SetBytes(hdr)), L(recvOuts...),
-		L(Bool(!ex.hasNative), Bool(ex.constsTabled), I(npr), I(1)))
+		L(Bool(true), I(c05ConstsFlag(ex)), I(npr), I(1)))
 	if ex.cacheHits > 0 {
 		c.Hist("circuit-cache-hit")
+	}
+	if ex.hasNative {
+		c.Hist("theorem-hypotheses-evaluated:native-circuit-program")
+	}
+	if ex.constsRead {
+		c.Hist("consts-read-tabled")
+	} else {
+		c.Hist("consts-read-tabled:FALSE")
+	}
+	for _, u := range ex.unreadConst {
+		c.Hist("untabled-const-operand-unread-by-circuit:" + u)
 	}
 	if ex.constsTabled {
 		c.Hist("consts-tabled")
@@ -1000,6 +1011,22 @@ func c05ParseIn(src string, g, e []string, opt c05StreamOpt, sizes [][]int) *c05
 		res.xy = append(res.xy, y.Bit(i) == 1)
 	}
 	return res
+}
+
+// c05ConstsFlag is the second hypothesis flag of the kind-1 observable as the
+// harness computes it from the real program: 1 = every constant operand in a
+// value position is in prog.Constants, 3 = some are not but no gate of the
+// step's circuit reads them (consts_read_tabled holds, consts_tabled does
+// not), 2 = an untabled constant operand is read.
+func c05ConstsFlag(ex *c05Exported) int {
+	f := 0
+	if ex.constsRead {
+		f = 1
+	}
+	if !ex.constsTabled {
+		f += 2
+	}
+	return f
 }
 
 func runC05(c *Ctx) error {
@@ -1224,7 +1251,7 @@ func c05Direct(c *Ctx) error {
 		}
 		var csx []SX
 		for k, circ := range circs {
-			if _, _, err := st.Garble(circ, insL[k], outsL[k]); err != nil {
+			if err := streamingGarble(st, k, circ, insL[k], outsL[k]); err != nil {
 				return fmt.Errorf("direct %d: Garble: %v", i, err)
 			}
 			dims, gs := CircuitSX(circ)
